@@ -10,6 +10,8 @@ pub enum Step {
     Pending(u32),
     /// stream error (actix: PayloadError kind; axum: io error)
     Error(u8),
+    /// axum only: a trailers frame (legal after the data frames)
+    Trailers,
     End,
 }
 
@@ -99,12 +101,16 @@ fn step_json(s: &Step) -> serde_json::Value {
         Step::Chunk(b) => serde_json::json!({"chunk_hex": hex(b), "text": String::from_utf8_lossy(b)}),
         Step::Pending(n) => serde_json::json!({"pending_wake_after_steps": n}),
         Step::Error(k) => serde_json::json!({"error": k}),
+        Step::Trailers => serde_json::json!("trailers"),
         Step::End => serde_json::json!("end"),
     }
 }
 fn step_from(j: &serde_json::Value) -> Option<Step> {
     if j.as_str() == Some("end") {
         return Some(Step::End);
+    }
+    if j.as_str() == Some("trailers") {
+        return Some(Step::Trailers);
     }
     if let Some(h) = j.get("chunk_hex") {
         return Some(Step::Chunk(unhex(h.as_str()?)?));
@@ -482,6 +488,12 @@ pub fn generate(seed: u64, index: u64, thorough: bool) -> Scenario {
                 }
             }
             _ => {}
+        }
+        if framework == Framework::AxumJson && rng.chance(1, 8) {
+            if let Some(Step::End) = script.last() {
+                let at = script.len() - 1;
+                script.insert(at, Step::Trailers);
+            }
         }
         let limit = match rng.below(6) {
             0 => Some(16 + rng.below(64)),
